@@ -335,8 +335,11 @@ fn highest_bit_lessthan_scaled(a: &BigUint, b: &BigUint, scale: u64) -> bool {
     if a_bits < b_bits {
         return true;
     }
+    // the f64 product may round up to the next integer when 10^scale lies just
+    // below a power of two (first at scale 178_898_934); one bit less keeps
+    // 2^(log_scale) <= 10^scale
     let log_scale = LOG2_10 * scale as f64;
-    match b_bits.checked_add(log_scale as u64) {
+    match b_bits.checked_add((log_scale as u64).saturating_sub(1)) {
         Some(scaled_b_bit) => a_bits < scaled_b_bit,
         None => true, // overflowing u64 means we are definitely bigger
     }
